@@ -1,6 +1,6 @@
 // Name tables for C15.  The property speaks about ANY node names: "the result depends only on the sequence
 // of insertions".  The model keeps nodes as integers ordered by <; the harness therefore may give the Go
-// code any table of distinct, non-empty strings, and the driver runs the model on the rank of each name in
+// code any table of distinct strings (the empty one included), and the driver runs the model on the rank of each name in
 // plain byte order (what sort.Strings implements).  The pools below are the shapes on which a "smarter"
 // comparison (natural / numeric, case-insensitive, whitespace-trimming, Unicode-aware, prefix-limited,
 // hash-based) ties or stops being transitive.
@@ -34,9 +34,6 @@ func fixedNames(width int) *namer {
 func tableNames(tab []string) *namer {
 	nm := &namer{tab: tab, width: 5, rev: make(map[string]int, len(tab))}
 	for i, s := range tab {
-		if s == "" {
-			panic("empty name in a table")
-		}
 		if _, dup := nm.rev[s]; dup {
 			panic("duplicate name in a table: " + strconv.Quote(s))
 		}
@@ -61,13 +58,15 @@ func (nm *namer) of(i int) string {
 // un maps a string returned by the implementation back to the node index: -1 for the empty string,
 // -2 for a string that is not a name of this case.
 func (nm *namer) un(s string) int {
-	if s == "" {
-		return -1
-	}
 	if nm.tab != nil {
 		if i, ok := nm.rev[s]; ok {
 			return i
 		}
+	}
+	if s == "" {
+		return -1
+	}
+	if nm.tab != nil {
 		return -2
 	}
 	if len(s) != nm.width+1 || s[0] != 'n' {
@@ -245,6 +244,10 @@ func takeNames(r *rand.Rand, n int, first, rest []string) []string {
 			seen[s] = true
 			res = append(res, s)
 		}
+	}
+	// the empty string is a legal node name (and was FindCycle's "no parent" mark until fix F26): one table in five has it
+	if n > 0 && r.Intn(5) == 0 {
+		res[r.Intn(n)] = ""
 	}
 	// the relation between node index and string order: usually random, sometimes ascending / descending
 	switch r.Intn(6) {
